@@ -213,6 +213,10 @@ func (p *File) newImport(name, pkgPath string) *ast.Ident {
 		id = &ast.Ident{Name: name, Obj: &ast.Object{Data: importUsed(false)}}
 		p.imps[pkgPath] = id
 		p.dirty = true
+	} else if !bool(id.Obj.Data.(importUsed)) {
+		// referenced before but not marked used yet (the earlier reference was discarded):
+		// this reference may be the first one that ends up in a declaration
+		p.dirty = true
 	}
 	return id
 }
